@@ -5,7 +5,10 @@ correspondence against package main of /repo through the overlay line driver
 harness/overlay/server/zz_verif_c19_test.go.  Stateful layer (coq/Sys/TagState.v,
 TagStateProofs.v): scenarios of {set tags} / {get tags} / new topic / new account /
 unload / server-side tag changes on real 'me' and group topics above memverif,
-driver harness/overlay/server/zz_verif_c19x_test.go (request kind TS)."""
+driver harness/overlay/server/zz_verif_c19x_test.go (request kind TS).  Search layer
+(coq/Sys/FndSearchC19.v, FndSearchC19Proofs.v): rewriteTag with the real validators /
+authenticator and whole searches on a real 'fnd' topic, driver
+harness/overlay/server/zz_verif_c19fnd_test.go (request kinds O, WR, QR, FS)."""
 import bisect
 import itertools
 import os
@@ -633,8 +636,20 @@ def ts_monitor(case, out):
 
 
 # ---- SEARCH layer (request kinds O / WR / QR / FS of handler c19f; model coq/Sys/FndSearchC19.v) ----
-ORACLE = {}          # (cc, lower-cased term) -> (email.PreCheck, tel.PreCheck, basic.AsTag, other authenticators' AsTag)
+ORACLE = {}          # (cc key, lower-cased term) -> (email.PreCheck, tel.PreCheck, basic.AsTag, other authenticators' AsTag)
 CCS = ["US", "DE", "-"]
+# A cc key is the country code, optionally followed by "@" and the configuration of the driver process that serves
+# the request: which of e(mail validator) t(el validator) b(asic authenticator) index (add_to_tags); none = all three.
+F_CFGS = ["e-b", "-t-"]
+
+
+def f_cfg(cckey):
+    return cckey.split("@", 1)[1] if "@" in cckey else "etb"
+
+
+def f_cfg_of_line(l):
+    w = l.split()
+    return f_cfg(w[3] if w[0] == "FS" else w[1])
 F_PLAIN = ["travel", "flowers", "Chess", "x", "new_york"]
 F_EMAIL = ["alice@example.com", "Bob@Example.COM"]
 F_PHONE_DIGITS = ["6502530000", "650.253.0000", "01711234567", "2125550123"]
@@ -874,6 +889,7 @@ def f_oracle_needs(lines):
         w = l.split()
         if w[0] == "WR":
             need.append((w[1], unhx(w[3])))
+            need.append((w[1], UNI.lower(unhx(w[3]))))
         elif w[0] == "QR":
             need += [(w[1], t) for t in f_terms_of(unhx(w[3]))]
         elif w[0] == "FS":
@@ -984,8 +1000,6 @@ def fs_monitor_full(case, out):
                         % ("FindUsers" if m == "U" else "FindTopics", t, place, own))
                     break
         if f[0] != "g":
-            if calls:
-                bad("search-only-on-request", "the store search ran on a request that is not a search")
             if fails:
                 break
             continue
@@ -1009,8 +1023,6 @@ def fs_monitor_full(case, out):
         # the query that is active for this session, as the topic holds it (printed by the driver)
         q, wl = (pubs[s - 1], True) if pubs[s - 1] is not None else (priv, False)
         if q is None or q == "":
-            if calls or found:
-                bad("search-only-with-a-query", "no query is set for the session, yet the store was searched")
             if fails:
                 break
             continue
@@ -1036,9 +1048,6 @@ def fs_monitor_full(case, out):
                     bad("results-match-query", "row %s with tags %r is shown for the query %r (reading required=%r optional=%r)"
                         % (x, cands[int(x)][2], q, exp[1], exp[2]))
                     break
-        else:
-            if calls or found:
-                bad("search-only-with-a-query", "the query %r has no valid term, yet the store was searched" % q)
         if fails:
             break
     return fails
@@ -1083,6 +1092,14 @@ def gen_search_cases(ctx):
                 cases.append("QR %s %d %s" % (rng.choice(["US", "US", "DE", "-"]), rng.randrange(2), hx(a + sep + b)))
     for _ in range(500 if quick else 30000):
         cases.append("QR %s %d %s" % (rng.choice(CCS), rng.randrange(2), hx(f_query(rng, rng.choice(F_MASKED), own))))
+    # the same with a rewriter NOT configured to index: tel off; email and basic off
+    for cfg in F_CFGS:
+        for t in vocab:
+            for cc in (["US"] if quick else ["US", "DE"]):
+                cases.append("WR %s@%s %d %s" % (cc, cfg, 1 if quick else rng.randrange(2), hx(UNI.lower(t))))
+        for (ka, a) in reps:
+            b = rng.choice(reps)[1]
+            cases.append("QR US@%s %d %s" % (cfg, rng.randrange(2), hx(a + rng.choice([" ", ","]) + b)))
     # whole searches on a real fnd topic
     cases += fs_corner_cases(rng, quick)
     for _ in range(FS_QUICK if quick else FS_THOROUGH):
@@ -1229,6 +1246,12 @@ def monitors(cases, t):
             orc = ORACLE.get((w[1], term))
             if orc is not None and UNI.prefixed_ns(term) is None:
                 want = f_real_rewrite(w[1])(term, w[2] == "1")
+                cfg = f_cfg(w[1])
+                for letter, pfx in (("e", "email:"), ("t", "tel:"), ("b", "basic:")):
+                    if letter not in cfg and got.startswith(pfx):
+                        fails.append(("rewritten-only-when-configured", c,
+                                      "term %r rewritten to %r although %s is not configured to index (add_to_tags off; configuration %s)"
+                                      % (term, got, pfx[:-1], cfg)))
                 if want and want != term and got != want:
                     who = "validator" if want in orc[:2] else "authenticator"
                     fails.append(("rewritten-to-prefixed-form-by-precedence", c,
@@ -1237,6 +1260,16 @@ def monitors(cases, t):
         elif w[0] == "QR":
             q = unhx(w[3])
             ref = f_ref_parse(q, w[2] == "1", w[1])
+            cfg = f_cfg(w[1])
+            spelled = [unhx(h) for g in (o[2].split(";") if len(o) > 3 and o[2] != "-" else []) for h in g.split("+")] + \
+                      [unhx(h) for h in (o[3].split(",") if len(o) > 3 and o[3] != "-" else [])]
+            srcs = set(f_terms_of(q))
+            for letter, pfx in (("e", "email:"), ("t", "tel:"), ("b", "basic:")):
+                extra = [x for x in spelled if x.startswith(pfx) and x not in srcs]
+                if letter not in cfg and extra:
+                    fails.append(("rewritten-only-when-configured", c,
+                                  "query %r: term rewritten to %r although %s is not configured to index (add_to_tags off; configuration %s)"
+                                  % (q, extra[0], pfx[:-1], cfg)))
             if ref is None:
                 pass
             elif ref[0] == "err":
@@ -1387,54 +1420,66 @@ def run(ctx):
     def ask_oracle(lines):
         """the configured rewriters asked directly about every term of the search requests (request O); the answers
         instantiate the model's Section variables vals / auths (file read by the runner) and the monitor's reference"""
-        need = f_oracle_needs(lines)
-        if need:
-            rc, out, err = ctx.run_main_lines("c19f", ["O %s %s" % (cc, hx(t)) for cc, t in need])
-            if rc != 0 or len(out) != len(need):
+        allneed = f_oracle_needs(lines)
+        for cfg in sorted(set(f_cfg(cc) for cc, _ in allneed)):
+            need = [(cc, t) for cc, t in allneed if f_cfg(cc) == cfg]
+            rc, out, err = ctx.run_main_lines("c19f", ["CFG " + cfg] + ["O %s %s" % (cc, hx(t)) for cc, t in need])
+            if rc != 0 or len(out) != len(need) + 1:
                 return rc or 1, err
-            for (cc, t), o in zip(need, out):
+            for (cc, t), o in zip(need, out[1:]):
                 f = o.split()
                 if len(f) == 5 and f[0] == "O":
-                    ORACLE[(cc, t)] = tuple(unhx(h) for h in f[1:])
+                    v = [unhx(h) for h in f[1:]]
+                    # a validator that is not configured with add_to_tags is not among the model's vals
+                    if "e" not in cfg:
+                        v[0] = ""
+                    if "t" not in cfg:
+                        v[1] = ""
+                    ORACLE[(cc, t)] = tuple(v)
         with open(opath, "w") as f:
             for (cc, t), v in ORACLE.items():
-                row = " ".join(x.encode("utf-8").hex() if x else "_" for x in v)
-                f.write("%s %s %s\n" % (cc, hx(t), row))
-                f.write("* %s %s\n" % (hx(t), row))
+                f.write("%s %s %s\n" % (cc, hx(t), " ".join(x.encode("utf-8").hex() if x else "_" for x in v)))
         return 0, ""
 
     def run_impl(lines):
-        # the pure requests, the tag scenarios and the search requests are served by three handlers (three processes)
-        groups = {"c19": [], "c19x": [], "c19f": []}
+        # the pure requests, the tag scenarios and the search requests are served by three handlers (one process
+        # each; the search handler one process per configuration of the rewriters)
+        groups = {}
 
         def which(l):
-            return "c19x" if l.startswith("TS ") else ("c19f" if l.startswith(SEARCH) else "c19")
+            if l.startswith("TS "):
+                return ("c19x", None)
+            if l.startswith(SEARCH):
+                return ("c19f", f_cfg_of_line(l))
+            return ("c19", None)
         for l in lines:
-            groups[which(l)].append(l)
-        if groups["c19f"]:
-            rc, err = ask_oracle(groups["c19f"])
+            groups.setdefault(which(l), []).append(l)
+        srch = [l for k, g in groups.items() if k[0] == "c19f" for l in g]
+        if srch:
+            rc, err = ask_oracle(srch)
             if rc != 0:
                 return rc, [], err
         outs, errs = {}, ""
-        for h in ("c19", "c19x", "c19f"):
-            if not groups[h]:
-                outs[h] = iter(())
-                continue
-            rc, out, err = ctx.run_main_lines(h, groups[h])
+        for (h, cfg), g in sorted(groups.items(), key=lambda kv: (kv[0][0], kv[0][1] or "")):
+            pre = ["CFG " + cfg] if cfg else []
+            rc, out, err = ctx.run_main_lines(h, pre + g)
             errs += err
-            if rc != 0 or len(out) != len(groups[h]):
+            if rc != 0 or len(out) != len(pre) + len(g):
                 return (rc or 1), out, err
-            outs[h] = iter(out)
+            outs[(h, cfg)] = iter(out[len(pre):])
         return 0, [next(outs[which(l)]) for l in lines], errs
 
     purelib.run_pure(
         ctx, "c19", gen_cases, monitors, neighbours, nontrivial,
-        rule="parseSearchQuery on every string of length <=5 (quick) / <=7 (thorough) over {a,b,space,tab,comma,quote,colon,e-acute} with login rewriting, a sample of them without, and seeded random queries of 1..6 terms (vocabulary of plain/prefixed/upper-case/non-ASCII/invalid terms and random runes of all UTF-8 widths, 30% quoted, 10% broken quotes, 8% glued, doubled commas, unicode white space around); rewriteTag on the vocabulary and random words; normalizeTags (once and twice) on random lists with case/space/duplicate/length/non-letter/null-marker variations under maxTagCount in {1,2,3,5,16}; restrictedTagsEqual / filterRestrictedTags / stringSliceDelta / the fnd masked-namespace gate on random old/new lists against namespace sets {}, {email}, {email,tel}, {basic,x_1}, {a}, each call with its argument slices compared before/after (F, R: untouched; D: same elements); stateful scenarios TS on real 'me' and group topics above memverif with globals.immutableTagNS in {basic}, {email,tel}, {basic,email}, {tel}, {x_1,basic}, {} and maxTagCount in {16,4,6,3}: 400 hand-shaped scenarios (one ordinary + one reserved tag in every relative order in the old and the new list; rejected attempt followed by a read, by an accepted update, by unload + reload; non-owner; store failure) and seeded random scenarios of 5..12 requests aimed at the holder's current tags (34% change ordinary tags only, 18% replace / 10% drop / 10% add a reserved tag, same set, null marker, duplicates, random; raw spellings with case and white space, shuffled / ascending / descending; 6% store failure; 15% non-owner), {get tags}, unload, server-side UpdateTags, {sub new set.tags}, {acc new tags} with an authenticator adding a reserved tag; after EVERY request the reply, the stored row and the loaded topic's tags of every holder are compared with the model and the laws are evaluated",
+        rule="parseSearchQuery on every string of length <=5 (quick) / <=7 (thorough) over {a,b,space,tab,comma,quote,colon,e-acute} with login rewriting, a sample of them without, and seeded random queries of 1..6 terms (vocabulary of plain/prefixed/upper-case/non-ASCII/invalid terms and random runes of all UTF-8 widths, 30% quoted, 10% broken quotes, 8% glued, doubled commas, unicode white space around); rewriteTag on the vocabulary and random words; normalizeTags (once and twice) on random lists with case/space/duplicate/length/non-letter/null-marker variations under maxTagCount in {1,2,3,5,16}; restrictedTagsEqual / filterRestrictedTags / stringSliceDelta / the fnd masked-namespace gate on random old/new lists against namespace sets {}, {email}, {email,tel}, {basic,x_1}, {a}, each call with its argument slices compared before/after (F, R: untouched; D: same elements); stateful scenarios TS on real 'me' and group topics above memverif with globals.immutableTagNS in {basic}, {email,tel}, {basic,email}, {tel}, {x_1,basic}, {} and maxTagCount in {16,4,6,3}: 400 hand-shaped scenarios (one ordinary + one reserved tag in every relative order in the old and the new list; rejected attempt followed by a read, by an accepted update, by unload + reload; non-owner; store failure) and seeded random scenarios of 5..12 requests aimed at the holder's current tags (34% change ordinary tags only, 18% replace / 10% drop / 10% add a reserved tag, same set, null marker, duplicates, random; raw spellings with case and white space, shuffled / ascending / descending; 6% store failure; 15% non-owner), {get tags}, unload, server-side UpdateTags, {sub new set.tags}, {acc new tags} with an authenticator adding a reserved tag; after EVERY request the reply, the stored row and the loaded topic's tags of every holder are compared with the model and the laws are evaluated; SEARCH layer (handler c19f: validators email + tel and the basic authenticator configured with add_to_tags, country codes US / DE / none): rewriteTag (WR) on a vocabulary of plain / e-mail / national digit-only and dotted phone / +phone / login / reserved / junk terms x country x login rewriting plus random digit strings and words; parseSearchQuery (QR) on every ordered pair of one term of each of 10 kinds (plain, e-mail, digits-only phone, +phone, login, quoted, masked-own, masked-foreign, reserved, junk) joined by AND and by OR, and random 1..4-term queries; whole searches (FS) on a real fnd topic above memverif whose FindUsers / FindTopics record their arguments: 60 sampled (quick) / all 180 hand-shaped scenarios (a masked own / foreign / quoted-foreign term next to a term of every kind, AND / OR / comma-space, first / second, as public or private query, ordinary or root session, topic tags empty then the user's) + the queries of the seeded demonstrations + seeded random scenarios of 2..5 query rounds ({set desc public|private|both}, {get sub} from the same / another / the root session, null marker, unload, topic tags assigned) against masked namespaces {org}, {org,dept}, {tel}, {email,tel}, {basic}, {} with 3..6 candidate accounts / topics (60% active, suspended, deleted) carrying the rewritten forms; after EVERY request the reply, the recorded store arguments, the topic's tags and the public / private queries it holds are compared with the model and the search laws are evaluated",
         trusted=["harness/overlay/server/zz_verif_c19_test.go (calls parseSearchQuery, rewriteTag, normalizeTags, filterRestrictedTags, restrictedTagsEqual, stringSliceDelta of package main; installs one fake validator and one fake authenticator so that rewriting is deterministic; request G restates the two-line gate expression of topic.go:2434-2442)",
                  "harness/runner/r_c19.ml: UTF-8 <-> rune list conversion (Go range-loop decoding), unicode tables of the Go toolchain instantiate the Section variables lower/is_letter/is_digit/is_number; their hypotheses are checked on all 0x110000 code points by the driver request UH on every run",
                  "harness/overlay/server/zz_verif_c19x_test.go (scenario driver: real hub / topics / sessions / store mappers above memverif; sessions are attached on demand before a {set}/{get}; unload = {leave} of every session + the hub.unreg message of the idle timer; server-side tag change = store.Users.UpdateTags while the topic is not loaded; fake authenticator 'verifx' whose AddRecord appends the scenario's tags to rec.Tags as auth/basic does; the token authenticator is initialised with a fixed key; one failing adapter call injected through memverif.SetFault)",
                  "harness/overlay/server/db/memverif (store contract modelled from db/mysql/adapter.go: UserUpdate/TopicUpdate replace the row's tags and refuse duplicates, UserUpdateTags returns the tags ordered)",
                  "tools/props/c19.py: python restatement of QuerySpec.denote / well_formed and of the tag laws, evaluated on the implementation's answers",
                  "byte order of valid UTF-8 strings equals code point order (checked by UH); input strings are valid UTF-8",
-                 "the execution path of topic.go (fnd query -> parseSearchQuery -> gate -> store.Users.FindSubs with activeOnly = authLvl != root) is read, not run, by this check"],
+                 "harness/overlay/server/zz_verif_c19fnd_test.go (search driver: globals.validators = {email, tel: add_to_tags}, auth/basic initialised with add_to_tags, globals.maskedTagNS per scenario, sess.countryCode assigned directly; request O asks each validator's PreCheck and each authenticator's AsTag DIRECTLY - these answers instantiate the model's Section variables vals / auths in the runner (file VERIF_C19ORACLE) and the monitor's reference, so the libraries behind them (net/mail, nyaruka/phonenumbers, the login regexp) are oracles, not modelled; request t assigns Topic.tags of the loaded fnd topic from the user's row, which no client request does at HEAD (initTopicFnd leaves it empty) - it exercises the gate with own tags present; root session = a session of the same user with authLvl root)",
+                 "harness/overlay/server/db/memverif FindUsers / FindTopics (store contract modelled from db/mysql/adapter.go 2352-2533: a row matches when it has one of the tags and one of every non-empty required group; activeOnly keeps state = OK; the caller is skipped among users) and zz_find_c19.go (argument log); the SQL of the real adapters is not executed",
+                 "candidate rows are at most 8 (below the adapter's result limit); result ORDER is not compared (sets of ids)",
+                 "no plugin is configured (pluginFind returns the query unchanged); fnd.public / private are strings"],
         run_impl=run_impl)
